@@ -7,6 +7,21 @@ from concurrent.futures.process import BrokenProcessPool
 from .core import ncpu
 
 
+FRAME = {"paths": 0, "diffs": []}      # frame condition (vlib/frame.py) accumulated over all jobs of this check
+
+
+def _with_frame(func, item):
+    """run one job in the worker and return (result, frame statistics of the symbolic explorations it performed)"""
+    import sys
+    res = func(item)
+    eng = sys.modules.get("symx.engine")
+    stats = None
+    if eng is not None and hasattr(eng, "FRAME_STATS"):
+        stats = dict(eng.FRAME_STATS)
+        eng.FRAME_STATS["paths"], eng.FRAME_STATS["diffs"] = 0, []
+    return res, stats
+
+
 class Crashed:
     def __init__(self, item, why):
         self.item, self.why = item, why
@@ -22,10 +37,15 @@ def pmap(func, items, procs=None):
         workers = min(procs or ncpu(), len(pending)) if first else 1
         todo, pending = (pending, []) if first else ([pending[0]], pending[1:])
         with ProcessPoolExecutor(max_workers=workers, mp_context=ctx) as ex:
-            futs = {i: ex.submit(func, items[i]) for i in todo}
+            futs = {i: ex.submit(_with_frame, func, items[i]) for i in todo}
             for i, f in futs.items():
                 try:
-                    results[i] = f.result()
+                    results[i], stats = f.result()
+                    if stats:
+                        FRAME["paths"] += stats["paths"]
+                        for d in stats["diffs"]:
+                            if len(FRAME["diffs"]) < 5:
+                                FRAME["diffs"].append({"job": repr(items[i])[:80], "diff": d})
                 except BrokenProcessPool:
                     if first:
                         pending.append(i)
